@@ -740,7 +740,8 @@ class World:
             else:
                 if isinstance(n, str):
                     want = re.sub(r'\s+', ' ', n)
-                    hits = [x for x in it['stmts']
+                    pool = it['all_stmts'] if where.startswith('in-') else it['stmts']
+                    hits = [x for x in pool
                             if re.sub(r'\s+', ' ', src[x['span'][0]:x['span'][1]].decode()).startswith(want)]
                     if len(hits) != 1:
                         raise Inconclusive(f'lost anchor: {len(hits)} top-level statements of {cname} start with {want!r}')
@@ -749,8 +750,8 @@ class World:
                     raise Inconclusive(f'lost anchor: {cname} has {len(it["stmts"])} statements, hint names {n}')
                 else:
                     st = it['stmts'][n]
-                pos = st['span'][1] if where == 'after' else st['span'][0]
-                if where == 'after':
+                pos = st['span'][1] if where in ('after', 'in-after') else st['span'][0]
+                if where in ('after', 'in-after'):
                     # include a trailing `;` if the span stopped short of it
                     j = pos
                     while j < block_e and src[j:j + 1] in b' \t':
@@ -823,6 +824,11 @@ class World:
                 self.counters['R3'] += 1
         # R4 Box<dyn Fn> (contract-listed textual substitutions, counted)
         body = apply_edits(src, block_s, block_e, edits)
+        for old, new in c.body_subst:
+            if old.encode() not in body:
+                raise Inconclusive(f'lost anchor: body text {old!r} not found in {cname}')
+            self.counters['R4'] += body.count(old.encode())
+            body = body.replace(old.encode(), new.encode())
         for o in c.opts:
             if o == 'R4':
                 n0 = body.count(b'Box::new(')
